@@ -91,3 +91,65 @@ def wide_result_truncated(c):
 def u64_blocks_wide_significand(c):
     n, es, sub, sup, sat, fb = _cf(c)
     return cfg_ints(c)[5] == 64 and fb >= 32
+
+
+import struct, math
+
+
+def _src_double(c):
+    """the native floating source of a from_f32/from_f64 case as a python float"""
+    a = ints(c['args'])[0]
+    if c['opname'] == 'from_f32':
+        return struct.unpack('<f', struct.pack('<I', a & 0xffffffff))[0], (a >> 23) & 0xff, a & 0x7fffff, 23
+    return struct.unpack('<d', struct.pack('<Q', a))[0], (a >> 52) & 0x7ff, a & ((1 << 52) - 1), 52
+
+
+@pred
+def areal_nan_source_with_payload(c):
+    x, e, f, fb = _src_double(c)
+    n = cfg_ints(c)[0]
+    i = ints(c['impl'])
+    nanpat = (1 << (n - 1)) - 1
+    return x != x and len(i) == 1 and (i[0] & nanpat) != nanpat
+
+
+@pred
+def areal_top_binade_source(c):
+    x, e, f, fb = _src_double(c)
+    n, es = cfg_ints(c)[:2]
+    if x != x or math.isinf(x) or x == 0:
+        return False
+    max_exp = (1 << (es - 1)) + 1
+    return math.frexp(abs(x))[1] - 1 == max_exp
+
+
+@pred
+def areal_one_dropped_bit(c):
+    """exactly one source fraction bit does not fit: the ubit is not set (impl = model with the ubit cleared)"""
+    x, e, f, fb = _src_double(c)
+    n, es = cfg_ints(c)[:2]
+    i, m = ints(c['impl']), ints(c['model'])
+    return (n - 2 - es) == fb - 1 and len(i) == 1 and len(m) == 1 and i[0] + 1 == m[0] and (m[0] & 1) == 1
+
+
+@pred
+def areal_subnormal_native_source(c):
+    x, e, f, fb = _src_double(c)
+    return e == 0 and f != 0
+
+
+@pred
+def areal_just_above_maxpos(c):
+    """maxpos < |x| < 2^MAX_EXP: the truncated fraction is all ones, which is the inf/NaN pattern"""
+    n, es = cfg_ints(c)[:2]
+    i, m = ints(c['impl']), ints(c['model'])
+    if len(i) != 1 or len(m) != 1:
+        return False
+    allones = (1 << (n - 2)) - 1
+    return ((m[0] >> 1) & allones) == allones - 1 and (m[0] & 1) == 1 and ((i[0] >> 1) & allones) == allones
+
+
+@pred
+def areal_wider_than_source_word(c):
+    n = cfg_ints(c)[0]
+    return (c['opname'] == 'from_f32' and n > 32) or (c['opname'] == 'from_f64' and n > 64)
